@@ -65,7 +65,12 @@ theorem step_inv (journal : P → P) (p : P) (hj : journal p ≠ p) (r₀ : Read
     all_goals exact ⟨hph, hfresh, hlive, hclosed⟩
   | closed =>
     have hst : st.phase = .closed := by rw [hph, hsp]
-    cases op <;> simp only [step, Sp.step, hst, hsp] <;> exact ⟨hph, hfresh, hlive, hclosed⟩
+    cases op <;> simp only [step, Sp.step, hst, hsp]
+    case closeRemove =>
+      refine inv_closed_intro p r₀ _ _ ?_ (by first | rfl | exact hsp) ?_
+      · simp only [removeIfFile]; split <;> simp [hst]
+      · simp only [removeIfFile]; split <;> simp_all [readBack, World.set_same]
+    all_goals exact ⟨hph, hfresh, hlive, hclosed⟩
   | live =>
     have hst : st.phase = .live := by rw [hph, hsp]
     obtain ⟨d, hw, hseen, happ, hemp⟩ := hlive hsp
@@ -297,7 +302,7 @@ theorem seenOk_step (r₀ : Read Row) (pre : List (Op Row)) (op : Op Row) (h : S
     cases hp : (spec r₀ pre).phase
     · exact seenOk_mono r₀ pre _ h (by rw [e]; simp [Sp.step, hp])
     · refine Or.inr (Or.inl ?_); rw [e]; simp [Sp.step, hp]
-    · exact seenOk_mono r₀ pre _ h (by rw [e]; simp [Sp.step, hp])
+    · refine Or.inr (Or.inl ?_); rw [e]; simp [Sp.step, hp]
 
 theorem step_not_fresh (sp : Sp Row) (op : Op Row) (h : sp.phase ≠ .fresh) : (sp.step op).phase ≠ .fresh := by
   cases op <;> simp only [Sp.step] <;> (repeat' split) <;> simp_all
